@@ -76,7 +76,7 @@ def _star_in_brackets(toks):
 
 
 def bound(ctx):
-    return 10 if ctx.tier == "thorough" else 8
+    return 9 if ctx.tier == "thorough" else 8
 
 
 @rule("C15.language", ["C15"],
